@@ -51,7 +51,7 @@ structure KA where
   streams : Nat
   closed : Bool
   /-- ghost: the instant since which keepalive has been applicable (last 0→1 stream transition;
-      0 with PermitWithoutStream). -/
+      always 0 with PermitWithoutStream, which makes it applicable from the start). -/
   appSince : Nat
   /-- ghost: the goroutine was woken from dormancy while `lastRead > prevNano` (a frame had been
       read while it was parked) and nothing has been read since. -/
@@ -123,7 +123,7 @@ def stepG (fireF : Cfg → KA → KA × List Out) (c : Cfg) (s : KA) : Ev → KA
   | .read => if s.closed then (s, []) else ({ s with lastRead := s.now, lateWake := false }, [])
   | .openS =>
     if s.closed then (s, []) else
-    let s1 := { s with streams := s.streams + 1, appSince := if s.streams = 0 then s.now else s.appSince }
+    let s1 := { s with streams := s.streams + 1, appSince := if s.streams = 0 && !c.permit then s.now else s.appSince }
     if s.dormant then
       -- Wait() returns: kpDormant = false; outstandingPing was cleared before parking, so a ping is sent
       sendAndSleep c { s1 with lateWake := decide (s.lastRead > s.prevNano) }
